@@ -320,8 +320,9 @@ int main(int argc, char **argv) {
   int         cfd  = open(crashp.c_str(), O_WRONLY | O_CREAT | O_TRUNC | O_APPEND, 0644);
   if (ofd < 0 || cfd < 0) { perror("open out"); return 2; }
   g_ofd = ofd;
-  long per_history_timeout = getenv("DSA_TIMEOUT") ? atol(getenv("DSA_TIMEOUT")) : 60;
-  long ncrash = 0;
+  long per_history_timeout = getenv("DSA_TIMEOUT") ? atol(getenv("DSA_TIMEOUT")) : (g_random ? 60 : 10);
+  long ncrash = 0, ntimeouts = 0, skipped = 0;
+  const long max_timeouts = 4;  // a tree on which histories hang: do not wait a timeout for each of them
 
   auto crash_record = [&](const Job &job, const std::string &kind, const std::string &rep) {
     J rec = J::Obj();
@@ -407,17 +408,20 @@ int main(int argc, char **argv) {
         break;
       }
       long bad = g_sh->cur;
+      if (classify(rep, status) == "timeout") ntimeouts++;
       // keep the events of the history up to the call that killed the child
       if (g_sh->evlen > 0) write_all(ofd, g_sh->ev, (size_t)g_sh->evlen);
       g_sh->evlen = 0;
       crash_record(load_job(bad), classify(rep, status), rep);
       from = bad + 1;
+      if (ntimeouts >= max_timeouts) break;
     }
     pos = end;
+    if (ntimeouts >= max_timeouts) { skipped = g_njobs - pos; break; }
   }
   unlink(errp.c_str());
   close(ofd);
   close(cfd);
-  fprintf(stdout, "histories=%ld crashes=%ld\n", g_njobs, ncrash);
+  fprintf(stdout, "histories=%ld crashes=%ld timeouts=%ld skipped_after_timeouts=%ld\n", g_njobs, ncrash, ntimeouts, skipped);
   return 0;
 }
